@@ -43,7 +43,9 @@ def run(funcs, results, tags=('C18',)):
         f = funcs[fn]
         fwd = fn == 'ntt'
         heads = loop_heads(f)
-        ml = f.debug_of.get('m'); ll = f.debug_of.get('len'); sl = f.debug_of.get('start'); zl = f.debug_of.get('zeta')
+        import lemmas as _LM
+        nv = _LM.ntt_vars(f)
+        ml = nv['m']; ll = nv['len']; sl = nv['start']; zl = nv['zeta']
         if not all([ml, ll, sl, zl]):
             results.append({'name': f'{fn}: schedule locals', 'tags': list(tags), 'verdict': 'refused', 'detail': str(f.debug_of)}); continue
         kind = {}
